@@ -31,7 +31,8 @@ TIMEOUT = 60.0
 SELECT_FUEL = 20000   # iterations of the sampling loop of select_a granted to the model, per requested A value
 BRUTE = 400          # primes up to this bound: the root set is enumerated over all residues
 
-RULE = ("n = product of two random primes, the residue class mod 8 forced (1, 3, 5, 7; 2 and 6 through even multipliers), 24..200 bits quick / "
+RULE = ("in BOTH tiers every op at n*k of exactly 63,64,65,127,128,129,255,256,257,258,300,384,447,448 bits (QS: ..399,400), batch inversion "
+        "with D of 64..127 bits; then: n = product of two random primes, the residue class mod 8 forced (1, 3, 5, 7; 2 and 6 through even multipliers), 24..200 bits quick / "
         "..400 bits thorough, multiplier k in {3,5,7,11,13,15,17,21,35,2,6} for a third of them; SIQS: parameters of the real driver (auto) or "
         "forced factor base 16..6000 (thorough 20000) primes, nfacs 0 and 2..14, interval 16k..512k, 1-3 A values per n, every Gray index for "
         "nfacs <= 6 else every 64th + the last 16, per polynomial all primes of the factor base; MPQS: D prime 3 mod 4 next to the driver's "
@@ -587,7 +588,7 @@ def siqs_custom_cases(rng, tier, scale):
     """A chosen here (not by select_a): products of 1..8 factor-base primes, also far away from the optimal size, so that the
     size assertions of _finish_polynomial are reached on both sides (the model must predict the same panics)"""
     for _ in range(12 * scale):
-        bits = rng.choice([24, 40, 64, 100, 150, 200, 260] + ([330, 400, 460, 500] if tier != "quick" else [300]))
+        bits = rng.choice([24, 40, 64, 100, 150, 200, 257, 300, 448] + ([330, 400, 460, 500] if tier != "quick" else []))
         n = semiprime(rng, bits, rng.choice([1, 3, 5, 7]))
         k = rng.choice([1, 1, 3])
         N = n * k
@@ -757,10 +758,68 @@ def qs_cases(rng, tier, scale):
         yield Case(f"qs_roots {n} 1 24", k=False, tag="tiny")
 
 
+def exact_n(rng, bits, cls, k=1):
+    """n (product of two primes) in the residue class cls mod 8 such that n*k has EXACTLY `bits` bits"""
+    nb = bits - k.bit_length() + 1
+    for _ in range(20000):
+        pb = nb // 2 + rng.randint(-nb // 8, nb // 8)
+        p, q = gen.rand_prime(rng, max(3, pb)), gen.rand_prime(rng, max(3, nb - pb))
+        for n in (p * q, p * gen.next_prime(q)):
+            if n % 8 == cls and (n * k).bit_length() == bits:
+                return n
+    raise RuntimeError("no n found")
+
+
+# bit lengths of n*k straddling the word boundaries of the mixed u64 / u128 / U256 / Uint (1024 bit) arithmetic of the polynomial
+# code, and the ends of the supported ranges (MPQS and SIQS refuse above 448 bits, QS above 400)
+BOUNDARY_BITS = [63, 64, 65, 127, 128, 129, 255, 256, 257, 258, 300, 384, 447, 448]
+QS_BOUNDARY_BITS = [63, 64, 65, 127, 128, 129, 255, 256, 257, 258, 300, 384, 399, 400]
+
+
+def boundary_cases(rng, tier):
+    """every op, in BOTH tiers, at every boundary size of n*k (with and without multiplier, all classes mod 8 over the list):
+    the oracle judges r^2 = n (mod D), the identities and the root tables for each of them"""
+    reps = 1 if tier == "quick" else 3
+    for rep in range(reps):
+        for i, bits in enumerate(BOUNDARY_BITS):
+            cls = (1, 3, 5, 7)[(i + rep) % 4]
+            k = 1 if (i + rep) % 3 else rng.choice([3, 5, 7, 11])
+            n = exact_n(rng, bits, cls, k)
+            N = n * k
+            assert N.bit_length() == bits
+            # --- SIQS: driver's own nfactors / interval size; factor base large enough for the window of A factors
+            fbs = "auto" if bits <= 129 else 1000
+            nfv = nfactors(bits)
+            step, tail, mx = walk_spec(nfv, big=bits > 300)
+            yield Case(f"siqs_walk {n} {k} {fbs} auto auto 3 {rep} {step} {tail} {mx}", k=False, tag=f"edge{bits}")
+            yield Case(f"siqs_select {n} {k} {fbs} auto auto 3", k=False, tag=f"edge{bits}")
+            # --- MPQS: D next to the driver's target (D crosses 64 bits near 290 bits of n), one block with the driver's stride
+            mm = 32768
+            a_target = math.isqrt(N >> 1 if N % 4 == 1 else N << 1) // (mm // 2)
+            d_target = max(3, math.isqrt(a_target))
+            for d in d_primes_3mod4(max(3, d_target - rng.randrange(50)), 4, N)[::2]:
+                yield Case(f"mpqs_poly {n} {k} {rng.choice([40, 240])} {mm} {d}", k=False, tag=f"edge{bits}")
+            stride = 200 if bits <= 32 else (50 if bits <= 256 else 200) * 20 // 7 * d_target.bit_length()
+            base = d_target - min(d_target // 10, stride) if d_target >= 20 else d_target
+            yield Case(f"mpqs_block {n} {k} 80 {mm} {base} {min(stride, 8000)} 20", k=False, tag=f"edge{bits}")
+        for i, bits in enumerate(QS_BOUNDARY_BITS):
+            cls = (1, 3, 5, 7)[(i + rep + 1) % 4]
+            k = 1 if (i + rep) % 3 else rng.choice([3, 5, 7])
+            n = exact_n(rng, bits, cls, k)
+            yield Case(f"qs_roots {n} {k} {rng.choice([80, 800])}", k=False, tag=f"edge{bits}")
+    # batch inversion with D above 64 bits (the two-word path of Dividers::mod_u128) and near the u128 / 127-bit limits
+    for bitsd in (64, 65, 96, 126, 127):
+        ds = [gen.rand_prime(rng, bitsd) for _ in range(rng.choice([3, 16]))]
+        ds[0] = (1 << bitsd) - rng.choice([1, 3, 5]) if bitsd < 127 else (1 << 127) - 1
+        n = exact_n(rng, 257, 3)
+        yield Case(f"mpqs_batchinv {n} 1 {rng.choice([64, 400])} {','.join(map(str, ds))}", k=False, tag="batch-wide")
+
+
 def cases(tier, rng, extended=False):
     scale = 4 if tier == "quick" else 5
     if extended:
         scale *= 4
+    yield from boundary_cases(rng, tier)
     yield from siqs_cases(rng, tier, scale)
     yield from siqs_custom_cases(rng, tier, scale)
     yield from siqs_select_cases(rng, tier, scale)
